@@ -207,11 +207,21 @@ fn main() {
         (Some("1"), "5", "threshold-1/5-threads"),
     ];
     let mut results: Vec<(String, Vec<String>)> = vec![];
-    for (th, nt, name) in &configs {
-        match run_worker(seed, n_small, n_large, *th, nt) {
+    // the worker processes run concurrently (they are independent processes; extra load only
+    // perturbs the schedules further)
+    let handles: Vec<_> = configs
+        .iter()
+        .map(|(th, nt, name)| {
+            let (th, nt, name) = (th.map(|s| s.to_string()), nt.to_string(), name.to_string());
+            std::thread::spawn(move || (name, run_worker(seed, n_small, n_large, th.as_deref(), &nt)))
+        })
+        .collect();
+    for h in handles {
+        let (name, res) = h.join().expect("worker thread");
+        match res {
             Ok(lines) => {
                 rep.count(&format!("config_{}", name));
-                results.push((name.to_string(), lines));
+                results.push((name, lines));
             }
             Err(e) => rep.fail(FailKind::Oracle, None, &format!("worker failed under configuration {}", name), &format!("configuration {}: {}", name, e)),
         }
